@@ -19,6 +19,42 @@ Definition map_args : list string := ["v:m"; "p:m"; "pp:m"; "n:m"; "npp:m"; "nil
 Definition reflect_args : list string :=
   ["r:embnil"; "r:pembnil"; "r:cyc"; "r:array"; "r:chan"; "r:func"; "r:hidden"; "r:mapany"; "r:anyslice"; "r:nested"].
 
+(* the reflect inspector on maps whose keys a path segment can name only by their `%v` text (struct, array, interface,
+   pointer, channel, complex keys; key types with a String method, also a panicking one), on defined pointer / recursive
+   map / embedded map types and on defined types behind interfaces: argument x the paths that hit and miss its entries
+   (beyond the value trees of the Rocq model - the modelled part of this class is in the c02reflect stream) *)
+Definition reflect_targets : list (string * list (list string)) :=
+  [("r:kstruct", [["{1}"]; ["{3}"]; ["1"]]);
+   ("r:karray", [["[1 2]"]; ["[1 3]"]; ["1"]]);
+   ("r:kiface", [["a"]; ["1"]; ["<nil>"]; ["S"]; ["q"]; ["zz"]]);
+   ("r:kptr", [["<nil>"]; ["a"]]);
+   ("r:kstringer", [["S"]; ["a"]; ["zz"]]);
+   ("r:kboom", [["1"]; ["1"; "0"]; ["boom"]]);
+   ("r:kchan", [["<nil>"]; ["1"]]);
+   ("r:kcomplex", [["(1+2i)"]; ["1"]]);
+   ("r:defptr", [["a"]; ["a"; "Id"]; ["n"; "Id"]; ["zz"; "Id"]]);
+   ("r:defrec", [["a"]; ["a"; "b"; "c"]; ["a"; "c"; "x"]; ["zz"]]);
+   ("r:pdefrec", [["a"; "c"]; ["a"; "b"; "c"]; ["zz"]]);
+   ("r:defany", [["m"; "1"; "0"]; ["m"; "2"]; ["s"; "0"]; ["s"; "1"]; ["n"; "a"]; ["p"; "a"]; ["d"; "Titles"; "en"]; ["d"; "Titles"; "zz"];
+                 ["d"; "Codes"; "1"]; ["zz"]]);
+   ("r:embdef", [["C02ByLang"; "a"; "Id"]; ["C02ByLang"; "zz"]; ["Titles"; "en"]; ["C02Doc"; "Titles"; "en"]]);
+   ("r:nildefmap", [["a"]; ["a"; "Id"]]);
+   ("r:pnildefmap", [["a"]; ["a"; "b"]])].
+Definition target_garbage : list (list string) := [[]; [""]; ["0"]; [multibyte]].
+
+Definition target_cases : list string :=
+  flat_map (fun ia : nat * (string * list (list string)) =>
+    let '(ai, (arg, ps)) := ia in
+    let ps := (ps ++ target_garbage)%list in
+    flat_map (fun jp : nat * list string =>
+      let '(j, pth) := jp in
+      map (fun m : string =>
+        "reflect.t" ++ nat_to_string ai ++ "." ++ nat_to_string j ++ "." ++ m ++ tab ++
+        "reflect," ++ m ++ ",a:" ++ arg ++ ",c:special,targeted" ++ tab ++
+        "reflect|" ++ m ++ "|" ++ arg ++ "|" ++ path_text pth ++ tab ++ "?" ++ tab ++ "ok") ["get"; "getto"])
+      (combine (seqn (List.length ps)) ps))
+    (combine (seqn (List.length reflect_targets)) reflect_targets).
+
 Definition args_of (ins : string) : list string :=
   (if String.eqb ins "static" then scalar_args ++ ["v:ss"; "n:ss"; "n:m"]
    else if String.eqb ins "strings" then strings_args ++ ["n:string"; "v:bytes"; "n:m"]
@@ -95,4 +131,4 @@ Definition assign_cases : list string :=
       assign_srcs) assign_dsts.
 
 Definition cases (tier : Z) (seed : Z) : list string :=
-  (flat_map ins_cases ["static"; "strings"; "stranymap"; "reflect"] ++ assign_cases)%list.
+  (flat_map ins_cases ["static"; "strings"; "stranymap"; "reflect"] ++ target_cases ++ assign_cases)%list.
